@@ -35,6 +35,11 @@ type Spec struct {
 	Suffix [][]ref.P
 	// Explicit: a stated finite family of polygons instead of the free search (each is one state)
 	Explicit [][][]ref.P
+	// HoleShapes/HoleOffsets (valid scopes): holes are not searched freely but are every shape translated by every
+	// offset that puts it strictly inside the shell and clear of the holes placed before (shells from a coarse
+	// point set, small holes anywhere inside)
+	HoleShapes  [][]ref.P
+	HoleOffsets []ref.P
 }
 
 // Window returns the lattice points of a w x h pixel window with sub steps per pixel.
@@ -161,6 +166,30 @@ func (wk *walker) shell(r []ref.P) {
 
 func (wk *walker) holes(shell []ref.P, done [][]ref.P) {
 	if len(done) == wk.spec.MaxHoles {
+		return
+	}
+	if len(wk.spec.HoleShapes) > 0 {
+		for _, o := range wk.spec.HoleOffsets {
+			for _, sh := range wk.spec.HoleShapes {
+				wk.st.States++
+				if wk.st.Aborted || (wk.stop != nil && wk.st.States&1023 == 0 && wk.stop()) {
+					wk.st.Aborted = true
+					return
+				}
+				h := make([]ref.P, len(sh))
+				for i, p := range sh {
+					h[i] = ref.P{p[0] + o[0], p[1] + o[1]}
+				}
+				if !ref.HoleOK(shell, done, h) {
+					continue
+				}
+				wk.st.Transitions++
+				hs := append(append([][]ref.P{}, done...), h)
+				wk.rings = append([][]ref.P{shell}, hs...)
+				wk.emit()
+				wk.holes(shell, hs)
+			}
+		}
 		return
 	}
 	var rec func(h []ref.P)
